@@ -38,7 +38,15 @@ func verifDial(network, addr string) (net.Conn, error) {
 // environment waits for the count to return to zero before it takes a step as settled.
 var VerifAsync int64
 
+// VerifGoFn, when set, starts the asynchronous OnSdp delivery instead of a plain go statement (the
+// schedule explorer of C20 registers it as a thread of its own, deterministically).
+var VerifGoFn func(f func())
+
 func verifGo(f func()) {
+	if g := VerifGoFn; g != nil {
+		g(f)
+		return
+	}
 	atomic.AddInt64(&VerifAsync, 1)
 	go func() {
 		defer atomic.AddInt64(&VerifAsync, -1)
